@@ -6,5 +6,5 @@ CONSTANTS
   PoolMaxV = 4
   MaxElems = 2
   MinEmit = 1
-INVARIANT Inv_SetRules Inv_Emit
+INVARIANT Inv_SetRules Inv_Files Inv_Emit
 CHECK_DEADLOCK FALSE
